@@ -85,9 +85,60 @@ Definition md_valid_registers (c : ctx_table) (rf : regfile) (v : validity) : ou
   | Ret l => Ret (filter (fun p => is_valid c (fst p) v) l)
   | Fail => Fail | Panic t => Panic t | OutOfFuel => OutOfFuel
   end.
-(* MinidumpContext::get_stack_pointer / get_instruction_pointer *)
+(* MinidumpContext::get_stack_pointer / get_instruction_pointer: the arm's body, evaluated.
+   Field values are of their declared unsigned type, so a widening cast is the identity and
+   a narrowing one truncates; `&&` / `||` / `if` evaluate only what Rust evaluates (an
+   out-of-range index in the branch not taken does not panic). *)
 Definition read_loc (rf : regfile) (l : loc) : outcome Z :=
   if loc_ok l then Ret (rf_get rf l) else Panic 2.
-Definition md_stack_pointer (c : ctx_table) (rf : regfile) : outcome Z := read_loc rf (ct_sp_loc c).
-Definition md_instruction_pointer (c : ctx_table) (rf : regfile) : outcome Z := read_loc rf (ct_ip_loc c).
+Fixpoint lookup_var (x : name) (env : list (name * Z)) : option Z :=
+  match env with
+  | [] => None
+  | (y, v) :: r => if name_eqb x y then Some v else lookup_var x r
+  end.
+Fixpoint aeval (rf : regfile) (env : list (name * Z)) (e : aexp) : outcome Z :=
+  match e with
+  | ALoc l => read_loc rf l
+  | ALit z => Ret z
+  | AVar x => match lookup_var x env with Some v => Ret v | None => Fail end
+  | ACast a from to => do v <- aeval rf env a; Ret (if from <=? to then v else v mod 2 ^ to)
+  | AAnd a b => do x <- aeval rf env a; do y <- aeval rf env b; Ret (Z.land x y)
+  | AOr a b => do x <- aeval rf env a; do y <- aeval rf env b; Ret (Z.lor x y)
+  | AXor a b => do x <- aeval rf env a; do y <- aeval rf env b; Ret (Z.lxor x y)
+  | ANot a w => do x <- aeval rf env a; Ret (Z.lxor x (2 ^ w - 1))
+  | AShl a k w => do x <- aeval rf env a; Ret ((x * 2 ^ k) mod 2 ^ w)
+  | AShr a k => do x <- aeval rf env a; Ret (x / 2 ^ k)
+  | AIf c a b => do t <- beval rf env c; if (t : bool) then aeval rf env a else aeval rf env b
+  | ALet x a body => do v <- aeval rf env a; aeval rf ((x, v) :: env) body
+  end
+with beval (rf : regfile) (env : list (name * Z)) (b : bexp) : outcome bool :=
+  match b with
+  | BLit t => Ret t
+  | BEq x y => do u <- aeval rf env x; do v <- aeval rf env y; Ret (u =? v)
+  | BNe x y => do u <- aeval rf env x; do v <- aeval rf env y; Ret (negb (u =? v))
+  | BAnd x y => do u <- beval rf env x; if (u : bool) then beval rf env y else Ret false
+  | BOr x y => do u <- beval rf env x; if (u : bool) then Ret true else beval rf env y
+  | BNot x => do u <- beval rf env x; Ret (negb u)
+  end.
+Definition md_stack_pointer (c : ctx_table) (rf : regfile) : outcome Z := aeval rf [] (ct_sp_acc c).
+Definition md_instruction_pointer (c : ctx_table) (rf : regfile) : outcome Z := aeval rf [] (ct_ip_acc c).
 Definition register_size (c : ctx_table) : Z := ct_width c / 8.
+
+(* CpuContext::format_register: format!("0x{:01$x}", get_register_always(reg), size_of::<Register>() * 2):
+   lower-case hexadecimal, zero-padded to AT LEAST 2*size digits (the unchecked read: an
+   unknown name reaches unreachable!()). *)
+Definition hex_digit (d : Z) : Z := if d <? 10 then 48 + d else 87 + d.
+Fixpoint hex_fixed (d : nat) (v : Z) (acc : name) : name :=
+  match d with
+  | O => acc
+  | S d' => hex_fixed d' (v / 16) (hex_digit (v mod 16) :: acc)
+  end.
+Definition ndigits (v : Z) : nat := if v <=? 0 then 1%nat else Z.to_nat (Z.log2 v / 4 + 1).
+Definition hex_min (d : nat) (v : Z) : name := hex_fixed (Nat.max d (ndigits v)) v [].
+Definition format_value (c : ctx_table) (v : Z) : name :=
+  48 :: 120 :: hex_min (Z.to_nat (register_size c * 2)) v.
+Definition format_register (c : ctx_table) (rf : regfile) (n : name) : outcome name :=
+  do x <- get_always c rf n; Ret (format_value c x).
+(* the value a rendering denotes (inverse of hex_fixed on digit strings) *)
+Definition hex_digit_val (b : Z) : Z := if b <? 58 then b - 48 else b - 87.
+Definition hex_val (s : name) : Z := fold_left (fun a b => a * 16 + hex_digit_val b) s 0.
